@@ -58,4 +58,6 @@ package html
 //@   requires ht != nil && tbl(ht.Table)
 //@   ensures [error-means-no-text] result1 != nil ==> result0 == "" @C09
 //@   ensures [table-still-wellformed] tbl(ht.Table)
+//@   ensures [returns-exactly-what-RenderTo-wrote] result1 == nil ==> result0 == wcat(Wchunk, old(Wn), Wn) @C10
+//@   call RenderTo before ghost renderStart = Wn
 //@   call RenderTo before ghost Wfailed = false
